@@ -272,6 +272,15 @@ fn view0<S: AnyS>(s: S) -> bool {
 }
 
 // ------------------------------------------------------------------------------ frame level
+/// iterator adaptor that hides the inner size_hint (reports the trait default `(0, None)`)
+struct NoHint<I>(I);
+impl<I: Iterator> Iterator for NoHint<I> {
+    type Item = I::Item;
+    fn next(&mut self) -> Option<I::Item> {
+        self.0.next()
+    }
+}
+
 fn small<S: AnyS>(k: u64) -> S {
     S::distinct(k)
 }
@@ -367,12 +376,24 @@ where
     }
     // from_samples: None iff the iterator is shorter than N; consumes exactly N on success and
     // everything on failure
+    // (the iterator is offered with three kinds of size_hint: exact, the default (0, None), and a
+    // filter's (0, Some(n)) - the lower bound is only a minimum and must not be used to decide)
     for len in 0..=N + 2 {
+      for hint_kind in 0..3 {
         let polled = Cell::new(0usize);
-        let mut it = (0..len).map(|k| {
+        let exact = (0..len).map(|k| {
             polled.set(polled.get() + 1);
             small::<S>(base + k as u64)
         });
+        let mut it: Box<dyn Iterator<Item = S> + '_> = if LEAN.with(|l| l.get()) && hint_kind > 0 {
+            continue;
+        } else {
+            match hint_kind {
+                0 => Box::new(exact),
+                1 => Box::new(NoHint(exact)),
+                _ => Box::new(exact.filter(|_| true)),
+            }
+        };
         let got: Option<F<S, N>> = Frame::from_samples(&mut it);
         match got {
             Some(fr) => {
@@ -395,6 +416,8 @@ where
                 }
             }
         }
+        drop(it);
+      }
     }
     // channels(): by value, in order, len() counts down
     let mut ch = f.channels();
@@ -494,6 +517,13 @@ where
         let ff: S = Frame::from_fn(|c| if c == 0 { s } else { other });
         if !ff.same(s) {
             fail!("from_fn", "{:?}", ff);
+        }
+        let mut hintless = NoHint([s].into_iter());
+        let fh: Option<S> = Frame::from_samples(&mut hintless);
+        let mut hintless1 = NoHint([s].into_iter());
+        let ah: Option<[S; 1]> = Frame::from_samples(&mut hintless1);
+        if !matches!(fh, Some(x) if x.same(s)) || !matches!(ah, Some(x) if x[0].same(s)) {
+            fail!("from_samples_hintless_iterator", "mono {:?} vs [S;1] {:?}", fh, ah);
         }
         let mut it = [s, other].into_iter();
         let fs: Option<S> = Frame::from_samples(&mut it);
@@ -616,6 +646,16 @@ fn main() {
             rep.exhaustive(format!("every Frame method for every N in 1..=32 x formats {}; all 14 sample types as mono frames vs [S;1]; every value of the 8/16-bit formats for the sample-level identities", if cli.thorough() { "{u8,i16,I24,f64,u32,U48,i64,f32}" } else { "{u8,i16,I24,f64} (+4 more at the first seed)" }));
             rep.sample(J::obj().set("level", J::s("sample")).set("case", J::s("u8 192 .add_amp(i8 -128)")).set("spec", J::s("to signed: 64; 64 + -128 = -64; back to u8: 64")).set("real", J::u(Sample::add_amp(192u8, -128) as u64)));
             rep.sample(J::obj().set("level", J::s("frame")).set("case", J::s("[I24; 7].zip_map(other, f) / from_samples(iter of 0..=9 items) / channel_mut(i) for i in 0..9")).set("spec", J::s("per-channel sample op in channel order; None iff fewer than 7 items, exactly 7 consumed on success")));
+        }
+        "release" => {
+            // the same sample-level and mono sweeps without debug assertions (the custom-width
+            // types and every `+`/`-` in the conversions behave differently there)
+            rep.oblige("sample_formats_checked", 14);
+            rep.oblige("mono_formats_checked", 14);
+            all_samples(&mut rep, cli.seed, cli.t(1_000, 20_000));
+            all_mono(&mut rep, cli.seed);
+            all_frames(&mut rep, cli.seed, false, &|n| n <= 4 || n == 32);
+            rep.note(format!("release stage: debug_assertions={}", cfg!(debug_assertions)));
         }
         "miri" => {
             LEAN.with(|l| l.set(true));
